@@ -58,6 +58,7 @@ class C16(Check):
         names = [p['name'] for p in getattr(self, '_profiles', [])]
         out = [{'kind': 'profile', 'name': n} for n in names]
         out += [{'kind': 'iso', 'i': i} for i in range(len(getattr(self, '_iso', [])))]
+        out += [{'kind': 'userhandler', 'reuse': r, 'with_name': w} for r in (2, 3) for w in (False, True)]
         n = 60 if tier == 'quick' else 1500
         out += [gen_history(rng, names) for _ in range(n)]
         for _ in range(100 if tier == 'quick' else 2000):
@@ -82,6 +83,25 @@ class C16(Check):
                     'obs': observe(dh), 'doc_promises_pref': 'ssh_subsystem_name' in doc}
         if k == 'iso':
             return self._iso[case['i']]
+        if k == 'userhandler':
+            from ncclient.devices.default import DefaultDeviceHandler
+            from ncclient.operations.rpc import GenericRPC
+
+            class MyHandler(DefaultDeviceHandler):
+                def add_additional_operations(self):
+                    return {'get': GenericRPC, 'my_op': GenericRPC}
+
+                def get_capabilities(self):
+                    return ['urn:ietf:params:netconf:base:1.0', 'urn:my:cap']
+            params = {'handler': MyHandler}
+            if case['with_name']:
+                params['name'] = 'junos'
+            seen = []
+            for _ in range(case['reuse']):
+                dh = manager.make_device_handler(params)        # the SAME dict object every time, as a module-level constant would be
+                o = observe(dh)
+                seen.append({'cls': type(dh).__name__, 'get': o['ops'].get('get'), 'my_op': o['ops'].get('my_op'), 'caps': o['caps']})
+            return {'seen': seen, 'params_keys': sorted(params)}
         if k == 'resolve':
             from impl.rpcstub import StubSession
             dh = manager.make_device_handler({'name': case['profile']})
@@ -193,6 +213,16 @@ class C16(Check):
                 if name not in dict(r['vendor']) and o['ops'].get(name) != cls:
                     return ('C16:standard-op-missing@' + n, 'standard operation %s through %s resolves to %s' % (name, n, o['ops'].get(name)))
             return None
+        if k == 'userhandler':
+            first = io['seen'][0]
+            if first['cls'] != 'MyHandler' or not str(first['get']).endswith('GenericRPC') or first['my_op'] is None:
+                return ('C16:user-handler-ignored', 'a user handler class did not yield its profile: %r' % first)
+            for i, s_ in enumerate(io['seen'][1:], 2):
+                if s_ != first:
+                    return ('C16:user-handler-lost-on-reuse', 'construction #%d from the same device_params yields %s instead of the user handler\'s profile' % (i, s_['cls']))
+            if 'handler' not in io['params_keys']:
+                return ('C16:device-params-mutated', 'make_device_handler removed "handler" from the caller\'s device_params')
+            return None
         if k == 'iso':
             if io['writes'] or io['error']:
                 return ('C16:shared-state-write:' + io['label'].split(':')[0], '%s writes shared containers %s (error %s)' % (io['label'], io['writes'][:4], io['error']))
@@ -207,7 +237,7 @@ class C16(Check):
         return None
 
     def nontrivial(self, case, io):
-        return case['kind'] in ('profile', 'history', 'iso')
+        return case['kind'] in ('profile', 'history', 'iso', 'userhandler')
 
     def extra_coverage(self):
         return {'gen_tables': {'Gen/Profiles.lean': len(getattr(self, '_profiles', [])), 'Gen/Isolation.lean': len(getattr(self, '_iso', []))}}
